@@ -76,6 +76,8 @@ struct Cfg {
     earlier_levels: Vec<u32>,
     earlier_chunks: Vec<usize>,
     ae: usize,
+    /// A generated Accept-Encoding value (used instead of the table entry `ae` when present).
+    ae_text: Option<String>,
     ae_second_line: Option<usize>,
     ae_present: bool,
     method: &'static str,
@@ -123,12 +125,28 @@ fn gen_cfg(t: &mut Tape, focus: &str) -> Cfg {
             earlier_chunks.push([1usize, 5, 4096][t.draw(3) as usize]);
         }
     }
+    // Half of the negotiation-minded runs use a generated value: 1-4 codings out of a small
+    // alphabet, each with an optional quality, in any order. Whatever should_gzip decides for it
+    // is the reference (C17's own words), so no value needs an expected answer here.
+    let ae_text = if matches!(focus, "C17" | "C15") && t.chance(1, 2) {
+        let n = 1 + t.draw(4);
+        let mut parts = Vec::new();
+        for _ in 0..n {
+            let coding = ["gzip", "identity", "*", "deflate", "br", "x-gzip", "GZIP", "gzip"][t.draw(8) as usize];
+            let q = ["", ";q=0", ";q=0.001", ";q=0.2", ";q=0.5", ";q=0.8", ";q=0.9", ";q=1", ";q=1.000", "; q=0.5", ";Q=0.5"][t.draw(11) as usize];
+            parts.push(format!("{coding}{q}"));
+        }
+        Some(parts.join([", ", ",", " , "][t.draw(3) as usize]))
+    } else {
+        None
+    };
     Cfg {
         chunk,
         level,
         earlier_levels,
         earlier_chunks,
         ae,
+        ae_text,
         ae_second_line: if matches!(focus, "C17" | "C15") && t.chance(1, 6) { Some(1 + t.draw(AE.len() as u32 - 1) as usize) } else { None },
         ae_present: ae_present && ae != 0,
         method: match focus {
@@ -186,7 +204,10 @@ fn build(cfg: &Cfg) -> (http::Response<SimBody>, Option<W>, bool) {
         }
     }
     if cfg.ae_present {
-        b = b.header("accept-encoding", ae_value(cfg.ae));
+        b = match &cfg.ae_text {
+            Some(v) => b.header("accept-encoding", v.as_str()),
+            None => b.header("accept-encoding", ae_value(cfg.ae)),
+        };
         // Some proxies split one field into several lines; should_gzip (the reference) looks at
         // the first line only.
         if let Some(second) = cfg.ae_second_line {
@@ -489,7 +510,7 @@ pub fn run(ctx: &mut Ctx) -> Result<RunOut, Violation> {
     // then, half of the time, a complete earlier response on this thread with its own drawn
     // configuration: state carried from an earlier call is part of the history.
     {
-        let warm = Cfg { chunk: 16, level: 6, earlier_levels: Vec::new(), earlier_chunks: Vec::new(), ae: 9, ae_second_line: None, ae_present: true, method: "GET", other: 0, version: 0, as_parts: false, payload: 0, seed: 0 };
+        let warm = Cfg { chunk: 16, level: 6, earlier_levels: Vec::new(), earlier_chunks: Vec::new(), ae: 9, ae_text: None, ae_second_line: None, ae_present: true, method: "GET", other: 0, version: 0, as_parts: false, payload: 0, seed: 0 };
         let _ = catch(|| drop(build(&warm)));
     }
     if ctx.tape.chance(1, 2) {
@@ -562,7 +583,7 @@ pub fn run(ctx: &mut Ctx) -> Result<RunOut, Violation> {
         sim.cfg.chunk,
         sim.cfg.level,
         if sim.cfg.earlier_levels.is_empty() && sim.cfg.earlier_chunks.is_empty() { String::new() } else { format!(" (after earlier builder calls levels {:?} chunks {:?}, interleaving bits {:b})", sim.cfg.earlier_levels, sim.cfg.earlier_chunks, builder_call_order(&sim.cfg) & 0x3f) },
-        if sim.cfg.ae_present { format!("{}{}", AE[sim.cfg.ae].0, sim.cfg.ae_second_line.map(|l| format!(" + second line {}", AE[l].0)).unwrap_or_default()) } else { "absent".to_string() },
+        if sim.cfg.ae_present { format!("{}{}", sim.cfg.ae_text.as_ref().map(|v| format!("{v:?}")).unwrap_or_else(|| AE[sim.cfg.ae].0.to_string()), sim.cfg.ae_second_line.map(|l| format!(" + second line {}", AE[l].0)).unwrap_or_default()) } else { "absent".to_string() },
         sim.cfg.method,
         {
             let o: Vec<String> = OTHER.iter().enumerate().filter(|(i, _)| sim.cfg.other & (1 << i) != 0).map(|(_, (k, v))| format!("{k}: {v}")).collect();
@@ -590,7 +611,7 @@ pub fn run(ctx: &mut Ctx) -> Result<RunOut, Violation> {
             };
         }
         // Same headers as the GET twin, body delivers nothing.
-        let twin = Cfg { method: "GET", other: sim.cfg.other, version: sim.cfg.version, ae_second_line: sim.cfg.ae_second_line, earlier_levels: sim.cfg.earlier_levels.clone(), earlier_chunks: sim.cfg.earlier_chunks.clone(), chunk: sim.cfg.chunk, level: sim.cfg.level, ae: sim.cfg.ae, ae_present: sim.cfg.ae_present, as_parts: sim.cfg.as_parts, payload: 0, seed: sim.cfg.seed };
+        let twin = Cfg { method: "GET", other: sim.cfg.other, version: sim.cfg.version, ae_second_line: sim.cfg.ae_second_line, earlier_levels: sim.cfg.earlier_levels.clone(), earlier_chunks: sim.cfg.earlier_chunks.clone(), chunk: sim.cfg.chunk, level: sim.cfg.level, ae: sim.cfg.ae, ae_text: sim.cfg.ae_text.clone(), ae_present: sim.cfg.ae_present, as_parts: sim.cfg.as_parts, payload: 0, seed: sim.cfg.seed };
         let (gresp, _gw, _) = build(&twin);
         let hs = |r: &http::HeaderMap| {
             let mut v: Vec<(String, Vec<u8>)> = r.iter().map(|(k, v)| (k.as_str().to_string(), v.as_bytes().to_vec())).collect();
@@ -927,7 +948,11 @@ pub fn run(ctx: &mut Ctx) -> Result<RunOut, Violation> {
         sim.cfg.payload = 0; // incompressible
         let mut told = false;
         let mut guard = 0;
-        while sim.accepted_after_body_drop <= limit && guard < 100_000 {
+        // The bound is on what the probe itself writes (incompressible pieces): the history may
+        // have fed the compressor megabytes of highly compressible input after the drop without
+        // ever completing a chunk, which is not "buffering without bound".
+        let probe_start = sim.accepted_after_body_drop;
+        while sim.accepted_after_body_drop - probe_start <= limit && guard < 100_000 {
             guard += 1;
             match sim.write(piece) {
                 Some(Ok(_)) => {}
@@ -942,7 +967,7 @@ pub fn run(ctx: &mut Ctx) -> Result<RunOut, Violation> {
         sim.ops.push(format!("probe: kept writing {piece}-byte pieces -> told={told} after {} bytes", sim.accepted_after_body_drop));
         ctx.stats.bump("c11_body_drop_probes");
         if !told && sim.panic.is_none() {
-            return violation("C11", "writer-buffers-after-body-drop", format!("{cfg_desc}: {} bytes were accepted without a single error after the body was dropped (bound {limit}); ops {:?}", sim.accepted_after_body_drop, sim.ops));
+            return violation("C11", "writer-buffers-after-body-drop", format!("{cfg_desc}: {} incompressible bytes (after {probe_start} earlier ones) were accepted without a single error after the body was dropped (bound {limit}); ops {:?}", sim.accepted_after_body_drop - probe_start, sim.ops));
         }
     }
 
@@ -1127,7 +1152,7 @@ fn run_release(ctx: &mut Ctx) -> Result<RunOut, Violation> {
     let fill_total: usize = if chunk < 64 { 4096 + t.draw(8192) as usize } else if gzip { 100_000 + t.draw(60_000) as usize } else { 300_000 + t.draw(200_000) as usize };
     let step = [chunk, 1, 3 * chunk + 1, 1024][t.draw(4) as usize].max(1);
     let seed = t.draw(u32::MAX) as u64;
-    let cfg = Cfg { other: 0, version: 0, chunk, level, earlier_levels: Vec::new(), earlier_chunks: Vec::new(), ae: if gzip { 1 } else { 0 }, ae_second_line: None, ae_present: gzip, method: "GET", as_parts: false, payload: 0, seed };
+    let cfg = Cfg { other: 0, version: 0, chunk, level, earlier_levels: Vec::new(), earlier_chunks: Vec::new(), ae: if gzip { 1 } else { 0 }, ae_text: None, ae_second_line: None, ae_present: gzip, method: "GET", as_parts: false, payload: 0, seed };
     let desc = format!("release scenario chunk={chunk} gzip={gzip} level={level} fill={fill_total} write-size={step} polls-before-drop={consume_some}");
     ctx.ev("release", chunk as u64, fill_total as u64);
     // Everything the harness needs is allocated before the measured window.
@@ -1233,7 +1258,7 @@ fn run_big_backlog(ctx: &mut Ctx) -> Result<RunOut, Violation> {
     let total = threshold + 2 * chunk + t.draw(4096) as usize;
     let end_with_abort = focus == "C11";
     let seed = t.draw(u32::MAX) as u64;
-    let cfg = Cfg { other: 0, version: 0, chunk, level: 0, earlier_levels: Vec::new(), earlier_chunks: Vec::new(), ae: 0, ae_second_line: None, ae_present: false, method: "GET", as_parts: false, payload: 1, seed };
+    let cfg = Cfg { other: 0, version: 0, chunk, level: 0, earlier_levels: Vec::new(), earlier_chunks: Vec::new(), ae: 0, ae_text: None, ae_second_line: None, ae_present: false, method: "GET", as_parts: false, payload: 1, seed };
     let desc = format!("backlog scenario: chunk={chunk}, {total} bytes written in {piece}-byte pieces before the first poll (threshold from the source dictionary: {threshold}), then {}", if end_with_abort { "abort" } else { "drop" });
     ctx.ev("backlog", total as u64, chunk as u64);
     let (resp, w, _) = build(&cfg);
